@@ -37,11 +37,12 @@ structure Buffer (α : Type) where
   cap : Nat
 
 /-- `Buffer::new(min_buffer_len)`; `spare = none` is the production default -/
-def Buffer.new (minBufferLen : Nat) (spare : Option Nat) : Buffer α :=
+def Buffer.new (minBufferLen : Nat) (spare : Option Nat) (minFactor : Nat := 8)
+    (defaultCap : Nat := 64 * 1024) : Buffer α :=
   let min := max 1 minBufferLen
   let cap := match spare with
     | some sp => min + max 1 sp
-    | none => max (min * 8) (64 * 1024)
+    | none => max (min * minFactor) defaultCap
   { buf := [], min := min, cap := cap }
 
 /-- `Buffer::fill`: read until the buffer holds at least `min` bytes or the
